@@ -35,6 +35,7 @@ RANDOM_EXTRA = [
     ("update_both", 0, "all", "last"), ("update_both", -1, "meta", "first"), ("update_both", "mid", "data", "missing"), ("update_both", 99, "all", "first"),
     ("delete_both", -1, "first"), ("delete_both", 0, "missing"), ("delete_both", 0, "last"),
     ("move_last", 0), ("move_last", 1), ("move_last", "mid"), ("alias",),
+    ("set_data", "empty_wider", None, False), ("set_data", "empty_wider", None, True),
 ]
 RULE = ("histories over %d symbolic operations (append/insert/delete by index and mnemonic/update/replace/"
         "item assignment with arrays and CurveItems/set_data with same, wider, truncated, renamed, duplicate-named "
@@ -47,6 +48,7 @@ RULE = ("histories over %d symbolic operations (append/insert/delete by index an
         % len(OPS))
 ASSUMPTIONS = [
     "session names (keys) are predicted by the model with the documented rule: renumbered :1..:n in order after each insertion and after set_data, left alone by deletions and updates",
+    "an array without samples (0 x k, k wider than the curve list) changes no curve and creates none, as set_data's own `data.size > 0` guards say; only the duplicate numbering is refreshed",
     "set_data() is only given 2-D arrays at least as wide as the curve list; names of curves beyond the end of a too-short names= list are don't-care",
     "where the plain list model raises (position out of range, missing mnemonic) lasio must raise too and leave the curves unchanged",
 ]
@@ -89,6 +91,10 @@ def grid(tier):
     for start in ("fresh", "read"):
         for seq in ([("move_last", 1)], [("move_last", 0), ("inplace", 0)], [("alias",), ("inplace", -1)], [("append", "new"), ("move_last", 1), ("alias",)],
                     [("set_data", "same", None, False), ("move_last", 1), ("inplace", -1)], [("append", "new"), ("alias",), ("move_last", 0), ("inplace", 0)]):
+            yield {"kind": "ops", "ops": [list(o) for o in seq], "start": start}
+    for start in ("fresh", "read"):
+        for seq in ([("set_data", "empty_wider", None, False)], [("append", "new"), ("append", "new"), ("set_data", "empty_wider", None, False), ("append", "new")],
+                    [("set_data", "empty_wider", None, True), ("set_data", "wider", None, False)]):
             yield {"kind": "ops", "ops": [list(o) for o in seq], "start": start}
     setup_ops = [("append", "new"), ("append", "new"), ("append", "dup"), ("append", "new")]
     for start in ("fresh", "read"):        # an index together with a mnemonic that names another (or no) curve
@@ -329,6 +335,8 @@ class Run:
                 rows = self.nrows
                 if width == "rows":
                     rows = 2 if self.nrows != 2 else 4
+                if width == "empty_wider":
+                    rows = 0              # an array without samples: no curve changes, no curve is created (set_data's own guards)
                 ncols = n if width in ("same", "rows", "df") else n + 2
                 if ncols == 0:
                     return None, False, None
@@ -344,16 +352,19 @@ class Run:
                 elif names_kind == "shortnames":
                     names = ["H%d" % self.k]
                 resolved = ("set_data", width, names_kind, truncate)
-                while len(m) < eff.shape[1]:
+                while len(m) < eff.shape[1] and eff.size > 0:
                     m.append({"orig": "", "sess": "UNKNOWN", "unit": "", "value": "", "descr": "", "data": np.array([])})
                 for i, c in enumerate(m):
+                    if eff.size == 0:
+                        break             # nothing is assigned from an array without samples; only the duplicate numbering is refreshed
                     if names is not None:
                         c["orig"] = names[i] if i < len(names) else None     # None = don't care
                     c["data"] = eff[:, i].copy()
                     c["sess"] = useful(c["orig"]) if c["orig"] is not None else None     # assigning .mnemonic resets the session name
                 for u in {useful(c["orig"]) for c in m if c["orig"] is not None}:
                     renumber(m, u, self.norm)
-                self.nrows = rows
+                if eff.size:
+                    self.nrows = rows
                 if width == "df":
                     import pandas as pd
                     cols = [c["orig"] for c in m]
